@@ -85,7 +85,7 @@ FieldVals(S, fs, d) ==
     IF fs = <<>> THEN {<<>>}
     ELSE LET f == fs[1] IN
          { [n \in {f.name} \cup DOMAIN r |-> IF n = f.name THEN x ELSE r[n]] :
-             x \in Vals(S, f.type, d + f.gd), r \in FieldVals(S, Tail(fs), d) }
+             x \in Vals(S, f.type, d + (IF "gd" \in DOMAIN f THEN f.gd ELSE 1)), r \in FieldVals(S, Tail(fs), d) }
 
 (* ------------------------------------------------------------- type pools *)
 LeafPool == { U(1), U(3), U(8), U(13), U(64), I(1), I(3), I(8), I(64), F32, F64, Str,
